@@ -16,11 +16,13 @@
    Scope (`no_session_call`): calls issued without a session context, of the
    kinds the reference model has (insert-one/many, find, find-one, count,
    distinct, update-one/many, replace, delete-one/many, find-one-and-update /
-   -replace / -delete, create-index, drop-index, drop-all-indexes,
-   list-indexes, drop-collection, drop-database); reads and list-indexes do
-   not target the system collection local.oplog, which the reference model
-   does not have (see C01_oplog_read_outside below: there the two models
-   differ, by design of the reference). *)
+   -replace / -delete, bulk-write, create-index, drop-index,
+   drop-all-indexes, list-indexes, drop-collection, drop-database).  Two
+   side conditions: reads and list-indexes do not target the system
+   collection local.oplog, which the reference model does not have (see
+   C01_oplog_read_outside below: there the two models differ, by design of
+   the reference); bulk-write items are the ones the driver API builds (no
+   sort, no skip — `driver_op`; see C01_bulk_sort_outside). *)
 From Coq Require Import List ZArith String.
 From Lungo.Model Require Import Driver MiniOps RunSpec.
 From Lungo.Spec Require Import SpecDb.
@@ -138,8 +140,9 @@ Print Assumptions C01_create_index_agrees.
 (* ------------------------------------------------------------------ *)
 (* non-vacuity: a concrete history (operator semantics: MiniOps) with an
    upsert, a successful insert, a failed insert (duplicate _id), a
-   multi-update, a find, a drop and a count: the hypothesis holds, the
-   replies are the expected ones and the two models agree *)
+   multi-update, a find, a drop, a count and an unordered bulk-write with a
+   failing item: the hypothesis holds, the replies are the expected ones and
+   the two models agree *)
 
 Definition ex_h : handle := ("db"%string, "c"%string).
 
@@ -152,7 +155,13 @@ Definition ex_history : list call :=
             [("$set"%string, VDoc [("c"%string, VInt32 9)])] false [];
     CFind 0 ex_h [] None None 0 0;
     CDropColl 0 ex_h;
-    CCount 0 ex_h [] 0 0 ].
+    CCount 0 ex_h [] 0 0;
+    CBulk 0 ex_h [ BInsert [("_id"%string, VInt32 1); ("a"%string, VInt32 1)];
+                   BInsert [("_id"%string, VInt32 1)];
+                   BUpdate [("a"%string, VInt32 1)]
+                           [("$set"%string, VDoc [("b"%string, VInt32 3)])] None false 0 0 [];
+                   BDelete [("a"%string, VInt32 2)] None 0 1 ] false;
+    CFind 0 ex_h [] None None 0 0 ].
 
 Example C01_nonvacuous :
   Forall no_session_call ex_history /\
@@ -165,7 +174,9 @@ Example C01_nonvacuous :
                ("c"%string, VInt32 9)];
               [("_id"%string, VInt32 7); ("a"%string, VInt32 1); ("c"%string, VInt32 9)] ];
       ROk;
-      RCount 0 ] /\
+      RCount 0;
+      RBulk 1 1 1 0 0 [] [(1, EDup)];
+      RDocs [ [("_id"%string, VInt32 1); ("a"%string, VInt32 1); ("b"%string, VInt32 3)] ] ] /\
   snd (s_run mini_match mini_apply mini_extract mini_project 0 s_init ex_history) =
   snd (run mini_match mini_apply mini_extract mini_project 0 d_init ex_history) /\
   sc_docs (coll_or_new
@@ -188,4 +199,18 @@ Example C01_oplog_read_outside :
     [RId (VInt32 1); RCount 1] /\
   snd (s_run mini_match mini_apply mini_extract mini_project 0 s_init hist) =
     [RId (VInt32 1); RCount 0].
+Proof. vm_compute. split; reflexivity. Qed.
+
+(* why bulk items with a sort are outside: a single update on a missing
+   namespace returns "nothing matched" without looking at the sort, whereas
+   Transaction.Bulk creates the namespace in its clone and runs the update on
+   it, so an invalid sort specification is an error there.  The driver API
+   cannot produce such an item (BulkWrite models carry no sort). *)
+Example C01_bulk_sort_outside :
+  let hist := [ CBulk 0 ex_h [ BUpdate [] [("$set"%string, VDoc [("b"%string, VInt32 3)])]
+                                       (Some [("a"%string, VInt32 7)]) false 0 0 [] ] true ] in
+  snd (run mini_match mini_apply mini_extract mini_project 0 d_init hist) =
+    [RBulk 0 0 0 0 0 [] [(0, EErr)]] /\
+  snd (s_run mini_match mini_apply mini_extract mini_project 0 s_init hist) =
+    [RBulk 0 0 0 0 0 [] []].
 Proof. vm_compute. split; reflexivity. Qed.
